@@ -1,0 +1,22 @@
+//! Verification hooks, compiled only with the cargo feature `verif`.
+//!
+//! Read-only re-exports of crate-internal items so that an external harness can
+//! drive the real code in-process. Nothing here changes behaviour; with the
+//! feature off this module does not exist.
+
+pub use crate::congestion::{CongestionController, cubic::Cubic};
+pub use crate::constants::{
+    ACK_DELAY, IMMEDIATE_ACK_EVERY_RMSS, SACK_DEPTH, SACK_DUP_THRESH, SYNACK_RESEND_INTERNAL,
+    WRAP_TOLERANCE, calc_pipe_expiry,
+};
+pub use crate::message::UtpMessage;
+pub use crate::recovery::{Recovering, Recovery};
+pub use crate::rtte::RttEstimator;
+pub use crate::seq_nr::SeqNr;
+pub use crate::stream_rx::{AssemblerAddRemoveResult, OutOfOrderQueue, UserRx};
+pub use crate::stream_tx::UserTx;
+pub use crate::stream_tx_segments::{
+    OnAckResult, Pipe, PopExpiredProbe, SegmentForSending, Segments,
+};
+pub use crate::traits::UtpEnvironment;
+pub use crate::utils::{prepare_2_ioslices, seq_nr_offset};
